@@ -314,8 +314,8 @@ Checkable::ProcessingResult Checkable::ProcessCheckResult(const CheckResult::Ptr
 	/* Send notifications whether when a hard state change occurred. */
 	if (hardChange && !(old_stateType == StateTypeSoft && IsStateOK(new_state)))
 		send_notification = true;
-	/* Or if the checkable is volatile and in a HARD state. */
-	else if (is_volatile && GetStateType() == StateTypeHard)
+	/* Or if the checkable is volatile and in a HARD state (but not for SOFT NOT-OK -> HARD OK either). */
+	else if (is_volatile && GetStateType() == StateTypeHard && !(old_stateType == StateTypeSoft && IsStateOK(new_state)))
 		send_notification = true;
 
 	if (IsStateOK(old_state) && old_stateType == StateTypeSoft)
